@@ -181,3 +181,30 @@ func VerifHarness_C06_ignore()         { verifC06(2, 1, true, false) }
 func VerifHarness_C06_ignore_witness() { verifC06(1, 1, true, true) }
 func VerifHarness_C06_thorough()       { verifC06(4, 6, false, false) }
 func VerifHarness_C06_ignore3()        { verifC06(3, 2, true, false) }
+
+// verifC06Names: file names are part of the directory too. An untouched
+// directory validates whatever its files are called: the first file's name is
+// 1..4 fully symbolic bytes before ".sql" (a line break or a path separator
+// cannot be part of a file name in a sum file line / a directory), the second
+// file is fixed. The sum file is written and read back by the real code.
+func verifC06Names(n int) {
+	k := verifChoice("namelen", n) + 1
+	name := verifString("fn", k) + ".sql"
+	for i := 0; i < k; i++ {
+		c := name[i]
+		verifAssume(verifAnd(verifAnd(c != '\n', c != '\r'), verifAnd(c != '/', c != 0)))
+	}
+	verifAssume(name != "z.sql" && name != HashFileName)
+	d := &MemDir{}
+	verifAssert(d.WriteFile(name, []byte("A;\n")) == nil, "write file")
+	verifAssert(d.WriteFile("z.sql", []byte("B;\n")) == nil, "write file")
+	sum, err := d.Checksum()
+	verifAssert(err == nil, "checksum")
+	verifAssert(WriteSumFile(d, sum) == nil, "write sum")
+	err = Validate(d)
+	verifReach("validates")
+	verifAssert(err == nil, "an untouched directory validates, whatever its files are called")
+}
+
+func VerifHarness_C06_names3() { verifC06Names(3) }
+func VerifHarness_C06_names4() { verifC06Names(4) }
